@@ -317,14 +317,14 @@ func cmdCheck(mode string, argv []string) int {
 	} else {
 		fmt.Fprintln(os.Stderr, "SMT files in", work)
 	}
-	opt := SolveOpts{Secs: 8, WorkDir: work}
+	opt := SolveOpts{Secs: 10, WorkDir: work}
 	if *tier == "thorough" {
 		opt.Secs = 60
 		opt.All = true
 	}
 	all := append(append([]*Obligation{}, obls...), covers...)
 	ts := time.Now()
-	solveAll(all, opt, runtime.NumCPU())
+	solveAll(all, opt, (runtime.NumCPU()+1)/2)
 	solveWall := time.Since(ts).Seconds()
 
 	if mode == "baseline" {
